@@ -116,7 +116,7 @@ theorem endLe_trans (x y z : Str × Int) (h1 : endLe x y = true) (h2 : endLe y z
   by_cases hxy : x.1 = y.1
   · by_cases hyz : y.1 = z.1
     · have hxz : x.1 = z.1 := hxy.trans hyz
-      simp only [hxy, hyz, hxz, if_true, decide_eq_true_eq] at h1 h2 ⊢
+      simp only [hxy, hyz, if_true, decide_eq_true_eq] at h1 h2 ⊢
       omega
     · have hxz : ¬ x.1 = z.1 := fun e => hyz (hxy.symm.trans e)
       simp only [hyz, if_false] at h2
